@@ -16,7 +16,12 @@ from .worker import load_prop
 ROOT = build.ROOT
 PY = sys.executable
 EVIDENCE_DIR = os.path.join(ROOT, "evidence")
+if os.path.realpath(build.REPO) != "/repo" or os.environ.get("VERIF_SCRATCH_EVIDENCE"):
+    # self-test runs against a scratch copy must not overwrite the evidence of the real tree
+    EVIDENCE_DIR = os.path.join(ROOT, "build", "evidence.scratch")
 FOUND_DIR = os.path.join(ROOT, "replays", "found")
+if os.path.realpath(build.REPO) != "/repo":
+    FOUND_DIR = os.path.join(ROOT, "build", "found.scratch")
 KEEP_DIR = os.path.join(ROOT, "replays", "keep")
 KNOWN_DIR = os.path.join(ROOT, "replays", "known")
 KNOWN_FILE = os.path.join(ROOT, "KNOWN_FINDINGS.txt")
